@@ -5,3 +5,12 @@ Theorem C09_free f x : noref f -> (var_is_free f x = true <-> free_occ f x). Pro
 Theorem C09_support n f b : nofsub f -> eval_f n f = Some b -> forall x, In x (support b) -> var_is_free f x = true.
 Proof. exact (Free.C09_support n f b). Qed.
 Print Assumptions C09_free. Print Assumptions C09_support.
+
+(** the variable lists of [ParsedFormula]: [vars] has no repetition, is sorted by id and holds exactly the
+    ids of the identifier tokens (occurrences and binder positions alike); [free_vars] is its filter *)
+From Coq Require Import Sorted.
+From Rsbdd Require Import Syntax.Token Cli.Pipeline Cli.PipelineFacts.
+Theorem C09_lists ts p : parsed_of_tokens ts = Done p ->
+  NoDup (pf_vars p) /\ Sorted le (pf_vars p) /\ (forall x, In x (pf_vars p) <-> In x (tok_vars ts)) /\
+  pf_free p = filter (var_is_free (pf_form p)) (pf_vars p) /\ NoDup (pf_free p).
+Proof. exact (pf_vars_spec ts p). Qed.
